@@ -91,6 +91,22 @@ func (x *Exec) verifyBody(fn *ssa.Function, c *Contract, res *FuncResult) {
 	// vacuity guard: the precondition must be satisfiable
 	x.addObl(&Obligation{Name: funcKey(fn) + "#cover.requires", Kind: "cover", Func: funcKey(fn), Guard: "true", Formula: "true", Cover: true, Src: "requires satisfiable"})
 	results, out := x.execFunc(fr, st)
+	for key := range c.Calls {
+		if !fr.seenCalls[key] {
+			panic(contractError(fmt.Sprintf("at-call clause for %s in %s matches no call (contract-shape drift)", key, funcKey(fn))))
+		}
+	}
+	for n := range c.Loops {
+		found := false
+		for _, li := range fr.loops {
+			if li.ordinal == n {
+				found = true
+			}
+		}
+		if !found {
+			panic(contractError(fmt.Sprintf("loop %d of %s does not exist (contract-shape drift)", n, funcKey(fn))))
+		}
+	}
 	if out == nil {
 		x.note("function %s never returns normally", funcKey(fn))
 		return
